@@ -278,6 +278,11 @@ def Ev.unsync : Ev → Bool
   | .dropCheck _ | .dropDec _ | .pSwap _ | .pNone _ | .pTry1 _ | .pReg _ | .pTry2 _ | .pBegin _ => false
   | _ => true
 
+/-- the index an event acts on -/
+def Ev.target : Ev → Nat
+  | .clone h | .opStart h | .drop h | .dropCheck h | .dropDec h | .tryUnwrap h | .take h | .close h
+  | .poll h | .pSwap h | .pNone h | .pTry1 h | .pReg h | .pTry2 h | .pBegin h | .dropFut h => h
+
 def St.role (s : St) (i : Nat) : Option Role := s.actors[i]?
 
 def St.parked (s : St) (c : Nat) : Prop := s.actors[c]? = some (.closer .parked)
